@@ -284,6 +284,9 @@ K("O05.2a", ["C05"], "parser", "c05_function_params_progress", needs_fmt_stub=Tr
 # ---------------------------------------------------------------------------------------------
 K("O03.1", ["C03"], "gc", "c03_constructors_register", level="bounded", bound="one float, one empty array", functions=["Object::float", "Object::array", "GC::trace", "GC::maybe_trace"],
   desc="heap constructors register their result exactly once; immediates never; maybe_trace does not register twice")
+V("O03.gc", ["C03"], "c03_collector", expect_verified=8,
+  functions=["GC::mark"],
+  desc="the collector algorithm on its real text over an abstract heap (every heap shape, cycles included)")
 # O03.2 (c03_run_universe3) and O04.3 (c04_untrace_result) are written in contracts/kani/gc.rs but NOT registered:
 # CBMC does not finish symbolic execution of GC::run / sweep / destroy (bitvec::BitVec resize / iter_zeros) within
 # 800 s even for a universe of three objects and a concrete root set (measured). The collector algorithm is
